@@ -54,6 +54,86 @@ def gen_prog(rng):
     return out
 
 
+def _distinct_values(rng, n):
+    pool = []
+    for k in range(n):
+        u = 10 * (k + 1) + rng.randrange(0, 9)
+        pool.append(rng.choice(["%d" % u, '"s%d"' % u, "[%d, %d]" % (u, u + 1), "Some(%d)" % u, "(%d, %d)" % (u, u + 1),
+                                "%d" % (u + 100)]))
+    return pool
+
+
+def gen_dest_probe(rng):
+    """A program with ONE binding construct whose destination NAMES are the eval-up-to positions.
+    -> (src, instrumented_src_for(name) function results as list of (offset, name, instrumented, kind))"""
+    kind = rng.choice(["destr", "destr", "destr", "plain", "for", "fordestr", "param"])
+    where = rng.choice(["block", "test", "top"])
+    n = rng.randrange(2, 5)
+    vals = _distinct_values(rng, n)
+    names = ["d%d" % i for i in range(n)]
+    dest = list(names)
+    if kind == "destr":
+        # `_` at a random non-empty proper subset of the positions (often the first ones)
+        k_us = rng.randrange(0, n)
+        for i in (range(k_us) if rng.random() < 0.5 else rng.sample(range(n), k_us)):
+            dest[i] = "_"
+    pre = ["let before = 1"]
+    defs = ""
+    rhs_kind = rng.choice(["lit", "var", "call"])
+    tup = "(%s)" % ", ".join(vals)
+    if rhs_kind == "var":
+        pre.append("let tup = %s" % tup)
+        rhs = "tup"
+    elif rhs_kind == "call":
+        defs = "fun mk() {\n  %s\n}\n" % tup
+        rhs = "mk()"
+    else:
+        rhs = tup
+    obs = lambda nm: 'println("OBS:" ^ string_repr(%s))' % nm
+    if kind == "param":
+        head = "fun pf(%s) {\n  " % ", ".join(names)
+        src = head + "0\n}\npf(%s)\n" % ", ".join(vals)
+        out = []
+        for nm in names:
+            off = len("fun pf(") + ", ".join(names).index(nm)
+            inst = head + obs(nm) + "\n  0\n}\npf(%s)\n" % ", ".join(vals)
+            out.append((off, nm, inst, kind))
+        return src, out
+    if kind == "plain":
+        stmt, body_first, targets = "let d0 = %s" % vals[0], None, ["d0"]
+    elif kind == "destr":
+        stmt, body_first, targets = "let (%s) = %s" % (", ".join(dest), rhs), None, [d for d in dest if d != "_"]
+    elif kind == "for":
+        stmt, body_first, targets = "for d0 in [%s] {" % ", ".join(vals), True, ["d0"]
+    else:
+        stmt, body_first, targets = ("for (%s) in [%s, %s] {" % (", ".join(dest), tup, tup)), True, list(dest)
+    ind = "" if where == "top" else "  "
+
+    def build(extra_after=None):
+        lines = [ind + x for x in pre] + [ind + stmt]
+        if body_first:
+            if extra_after:
+                lines.append(ind + "  " + extra_after)
+            lines.append(ind + "  let inner = 0")
+            lines.append(ind + "}")
+        elif extra_after:
+            lines.append(ind + extra_after)
+        lines.append(ind + "let after = 2")
+        body = "\n".join(lines) + "\n"
+        if where == "block":
+            return defs + "{\n" + body + "}\n"
+        if where == "test":
+            return defs + "test probe {\n" + body + "}\n"
+        return defs + body
+    src = build()
+    base = src.index(stmt)
+    out = []
+    for nm in targets:
+        m = re.search(r"\b%s\b" % nm, stmt)
+        out.append((base + m.start(), nm, build(obs(nm)), kind))
+    return src, out
+
+
 EV = re.compile(r"^OK \(evalupto \(first ok\) \(firstticks (\d+)\) \(id (\w+)\) (\(.*?\)) (\(end[^)]*\)) "
                 r"(?:\(out1 [0-9a-f]*\) )?\(out2 ([0-9a-f]*)\) (?:\(items ([0-9a-f]*)\) \(marked ([0-9a-f]*)\)|\(flags ([^)]*)\)) "
                 r"\(trace ([0-9a-f]*)\)\)$")
@@ -269,6 +349,41 @@ def run(ctx):
     ctx.cov["oracle_instrumented_runs"] = n_or
     ctx.cov["oracle_skipped_unparsable_instrumentation"] = n_or_skip
 
+
+    # ------------------------------------------------------------------ destination names (let / for / parameters)
+    # Positions on the NAMES a construct binds: plain and destructuring `let` (with `_` at every position, elements
+    # of different values and types, the tuple given as a literal / a variable / a call), `for` variables (plain and
+    # destructuring) and function parameters. These go through let_var_pos / assign_var_pos / eval_up_to_param, which
+    # Model/EvalUpTo.lean does not model (it models expression positions): direct oracle only — the value eval-up-to
+    # reports must be the value BOUND to that name in a run instrumented with a print right after the binding.
+    probes = [gen_dest_probe(rng) for _ in range(ctx.scale(80, 1500))]
+    jobs = [(src, off, nm, inst, kind) for src, outs in probes for off, nm, inst, kind in outs]
+    ev = [parse_ev(r) for r in ctx.garden_batch(["evalupto %s %d notrace" % (hexs(src), off) for src, off, _, _, _ in jobs],
+                                                timeout=900)]
+    runs = [MC.parse_resp(r) for r in ctx.garden_batch(["machine %s - 2000000 - notrace" % hexs(inst)
+                                                        for _, _, _, inst, _ in jobs], timeout=900)]
+    dest_hist = {}
+    for (src, off, nm, inst, kind), i, r in zip(jobs, ev, runs):
+        ctx.case(("dest", src, off), True)
+        dest_hist[kind] = dest_hist.get(kind, 0) + 1
+        obs = [l[4:] for l in r.get("out", "").split("\n") if l.startswith("OBS:")]
+        if i["kind"] != "ok" or not obs:
+            ctx.fail("C27/hook-crash", "destination-name probe gave no answer: %s / instrumented run %s"
+                     % (i.get("raw", i.get("res")), r.get("outcome", r.get("raw"))), src=src, offset=off)
+            continue
+        got = i.get("display") if i["res"] == "value" else "<%s>" % i["res"]
+        if got == obs[0]:
+            continue
+        if kind == "fordestr" and got == "Unit":
+            ctx.fail("C27/for-destructuring-variable-reports-unit",
+                     "eval-up-to on the variable %s of a destructuring `for` reports Unit; it is bound to %s"
+                     % (nm, obs[0]), src=src, offset=off)
+        else:
+            ctx.fail("C27/wrong-value/destination-name/%s" % kind,
+                     "eval-up-to on the name %s reports %r but the name is bound to %r" % (nm, got, obs[0]),
+                     src=src, offset=off, instrumented=inst)
+    ctx.cov["destination_name_positions"] = dest_hist
+
     # ------------------------------------------------------------------ hook == CLI on a sample (caret comment)
     sample = [c for c in zip(cases, impl) if c[1]["kind"] == "ok" and c[1]["res"] == "value"]
     rng.shuffle(sample)
@@ -318,4 +433,6 @@ def run(ctx):
         "positions inside function and method bodies (prev_call_args) are outside the model; the hook answers are "
         "still checked for crashes",
         "the instrumented run wraps the expression in a call of an identity function, which makes its value used",
+        "positions on destination names (let / for / parameters: let_var_pos, assign_var_pos, eval_up_to_param) are "
+        "checked by the direct oracle only; the Lean model covers expression positions",
     ]
